@@ -38,6 +38,8 @@
 //   P2  Ok(T), T a NonZero type  ==>  not admitted(0)
 //   P3  numeric default d outside the schema bounds or outside the recognised
 //       format's range  ==>  Err
+//   P3x the same for the single input d == 2^63 (int64) / d == 2^64 (uint64), where the
+//       code's f64 table cannot tell MAX from MAX + 1 (known finding)
 //   P4  no panic, no arithmetic fault (Kani's built-in checks)
 //
 // `multipleOf`: when present only n = 0 is probed (0 is a multiple of every
@@ -193,10 +195,22 @@ fn check_integer(format: Option<&str>, which: u8) {
                     || k.exclusive_minimum.map_or(false, |m| d <= m)
                     || k.exclusive_maximum.map_or(false, |m| d >= m)
                     || fr.map_or(false, |(lo, hi)| d < lo || d >= hi);
-                kani::assert(
-                    !outside,
-                    "[C10/P3] numeric default outside the admitted range was accepted",
-                );
+                // the f64 image of a 64-bit type's MAX is MAX + 1 (2^63 / 2^64): a default equal
+                // to it cannot be told from MAX itself in f64 arithmetic; that single input is
+                // a separate obligation (P3x) so that it can be recorded as a known finding
+                // without hiding any other P3 failure
+                let at_rounded_max = fr.map_or(false, |(_, hi)| hi >= P63 && d == hi);
+                if at_rounded_max {
+                    kani::assert(
+                        !outside,
+                        "[C10/P3x] default equal to the f64 image of a 64-bit format's MAX + 1 (2^63 / 2^64) was accepted",
+                    );
+                } else {
+                    kani::assert(
+                        !outside,
+                        "[C10/P3] numeric default outside the admitted range was accepted",
+                    );
+                }
             }
         }
         Ok(_) => {
